@@ -37,7 +37,9 @@ ThoroughAsms ==
       Asm(<<A5, A1>>, << <<"SSxcte", 1, 2, R(1,4), R(3,4)>> >>), Asm(<<A1, A5>>, << <<"SSxcte", 2, 1, ROne, RZero>> >>),
       Asm(<<A1, A2, A3, A4>>, << <<"SSycte", 1, 2, ROne, RZero>>, <<"SSycte", 3, 4, ROne, RZero>> >>),
       Asm(<<A4, A3, A2, A1>>, << <<"SSycte", 4, 3, ROne, RZero>>, <<"BFycte", 2, 1, RZero, RZero>> >>),
-      Asm(<<A2, A2, A4, A4>>, << <<"SSycte", 1, 2, ROne, RZero>> >>) }
+      Asm(<<A2, A2, A4, A4>>, << <<"SSycte", 1, 2, ROne, RZero>> >>),
+      Asm(<<A4, A2, A6, A4, A2>>, << <<"SSycte", 2, 3, ROne, RZero>>, <<"BFycte", 5, 1, R(1,2), RZero>> >>),
+      Asm(<<A6, A4, A1, A4, A2, A3>>, << <<"SB", 3, 6, RZero, RZero>>, <<"SSycte", 5, 1, ROne, RZero>> >>) }
 Asms == IF Tier = "quick" THEN QuickAsms ELSE ThoroughAsms
 
 (* loads, forces and states as fixed functions of the position in the list *)
